@@ -18,17 +18,17 @@ CHECKS = {
    "5/C02"),
  "C04": ("exploration",
    "runtime monitor: porcupine linearizability check of concurrent histories recorded at the signer boundary against Dirk's learned sequential semantics; slashability oracle; race detector; hook-steered overlaps",
-   "Short, heavily contended concurrent histories (single and batch requests over 3 shared keys) are recorded at the signer.Service boundary with call/return stamps and, together with a final state read, checked by porcupine against an unpartitioned multi-key model whose step function is the real rules' single-threaded behaviour. A verifhook handler parks requests between their read and write while a rival is in flight so that broken locking becomes an overlap. An independent-clients phase runs 12 clients side by side, each sequential on two private keys and judged against the sequential specification, so that state shared below the per-key locks becomes visible; several clients send batches over the same 130..600 keys in different orders, and the per-key winners must all be one client. Some requests are abandoned by their client (context cancelled) exactly between their read and their write; a FAILED/UNKNOWN answer is modelled as an indeterminate operation that stays open (nondeterministic porcupine model). A wire slice records histories over TLS/gRPC against the real daemon and takes the final reads from its database after it stops. The same workload runs under the Go race detector. Held on the interleavings observed (thousands of overlapping same-key pairs per run), not on all schedules.",
+   "Short, heavily contended concurrent histories (single and batch requests over 3 shared keys) are recorded at the signer.Service boundary with call/return stamps and, together with a final state read, checked by porcupine against an unpartitioned multi-key model whose step function is the real rules' single-threaded behaviour. A verifhook handler parks requests between their read and write while a rival is in flight so that broken locking becomes an overlap. An independent-clients phase runs 12 clients side by side, each sequential on two private keys and judged against the sequential specification, so that state shared below the per-key locks becomes visible; several clients send batches over the same 130..600 keys in different orders, and the per-key winners must all be one client. A FAILED/UNKNOWN answer to a request that met no fault and was not abandoned is judged as a refusal that some order must explain; the single-threaded reference runs and every phase have watchdogs. Some requests are abandoned by their client (context cancelled) exactly between their read and their write; a FAILED/UNKNOWN answer is modelled as an indeterminate operation that stays open (nondeterministic porcupine model). A wire slice records histories over TLS/gRPC against the real daemon and takes the final reads from its database after it stops. The same workload runs under the Go race detector. Held on the interleavings observed (thousands of overlapping same-key pairs per run), not on all schedules.",
    "Trusted: porcupine v1.3.0; the learned table (real code run sequentially); monotonic clock stamps taken outside the call.",
    "5/C04"),
  "C05": ("exploration",
    "runtime monitor: domain-type / admin-IP oracle over all five signing endpoints at service and handler boundaries",
-   "Thousands of requests covering endpoint x domain-type class (incl. look-alikes and lengths != 32 over the wire) x admin-IP list x source address class x batch position; a wire slice drives the real daemon with server.rules.admin-ips set (two lists: without and with the daemon's own listening address) while the client binds different loopback source addresses (real SourceIP interceptor); multisign batches repeat the same data under several domains; the monitor asserts that generic/multi never return a signature under attester/proposer types (nor one that verifies under them or under the restricted domain another entry of the request carried), exits only from listed addresses, and that the protected endpoints refuse foreign types without touching stored state.",
+   "Thousands of requests covering endpoint x domain-type class (incl. look-alikes and lengths != 32 over the wire) x admin-IP list x source address class x batch position; a wire slice drives the real daemon with server.rules.admin-ips set (two lists: without and with the daemon's own listening address) while the client binds different loopback source addresses (real SourceIP interceptor); multisign batches repeat the same data under several domains; 64-entry multisign batches alternate harmless and restricted domains over many workers; the monitor asserts that generic/multi never return a signature under attester/proposer types (nor one that verifies under them or under the restricted domain another entry of the request carried), exits only from listed addresses, and that the protected endpoints refuse foreign types without touching stored state.",
    "Trusted: harness signing-root code; the IP in the credentials stands in for the SourceIP interceptor at the in-process boundary.",
    "5/C05"),
  "C08": ("exploration",
    "runtime monitor: independent BLS verification of every returned signature over harness-computed signing roots, across batch sizes x GOMAXPROCS; race detector on batch paths",
-   "Every signature returned for well-formed random requests (single and batches of 24 sizes from 1 to 511, GOMAXPROCS 1..61, service and handler boundary, by name/key/over-long key) is verified with herumi directly under the addressed account's key over a signing root computed by the harness's own SSZ code, and must not verify under a neighbouring account of the batch; response lengths must equal request lengths; a slice on real wallets behind the real fetcher uses account names that contain the path separator next to accounts named after their prefixes; multisign batches repeat data across entries under different domains; batches also carry marker entries (attestations no rule can approve) whose positions must keep their own negative verdict. Batch paths also run under the race detector.",
+   "Every signature returned for well-formed random requests (single and batches of 24 sizes from 1 to 511, GOMAXPROCS 1..61, service and handler boundary, by name/key/over-long key) is verified with herumi directly under the addressed account's key over a signing root computed by the harness's own SSZ code, and must not verify under a neighbouring account of the batch; response lengths must equal request lengths; a slice on real wallets behind the real fetcher uses account names that contain the path separator next to accounts named after their prefixes; multisign batches repeat data across entries under different domains; batches also carry marker entries (including entries that cannot be hashed) (attestations no rule can approve) whose positions must keep their own negative verdict. Batch paths also run under the race detector.",
    "Trusted: harness SSZ code, herumi VerifyByte.",
    "5/C08"),
  "C09": ("exploration",
@@ -43,12 +43,12 @@ CHECKS = {
    "5/C03"),
  "C06": ("fault_enumeration",
    "fault injection at every dependency seam (interposers + verifhook + undecodable records + OS-level write failure + closed store) with a per-position signature-iff-SUCCEEDED oracle",
-   "Every single fault of 23 kinds is injected for each of the five request kinds, batch sizes {1,2,5,17} and every position, at service and handler boundary; then seeded multi-fault sequences, a handler-only matrix over a stub signer, a closed store, a store closed under load (child; signatures that left it are re-verified against the reopened store), a value log whose descriptor is made unwritable, one request parked between its read and its write while the store closes over a populated memtable (the reopened store must cover any signature that left), and arguments that cannot be decided handed to the real signer service and ruler (absent credentials, data, checkpoints, identifiers; unknown actions; data of the wrong type). The oracle: signature iff SUCCEEDED at every position and no signature where a fault fired. A fault whose injector never fired fails the run as inconclusive.",
+   "Every single fault of 23 kinds is injected for each of the five request kinds, batch sizes {1,2,5,17} and every position, at service and handler boundary; then seeded multi-fault sequences, a handler-only matrix over a stub signer, a closed store, a store closed under load (child; signatures that left it are re-verified against the reopened store), a value log whose descriptor is made unwritable, one request parked between its read and its write while the store closes over a populated memtable (the reopened store must cover any signature that left), and arguments that cannot be decided handed to the real signer service and ruler (absent credentials, data, checkpoints, identifiers; unknown actions; data of the wrong type). The oracle: signature iff SUCCEEDED at every position, no signature where a fault fired, and every signature returned beside a faulted entry verifies for its own entry. A fault whose injector never fired fails the run as inconclusive.",
    "Faults are those producible through exported interfaces, the storage hook and the OS; values outside the four rule results are not injected.",
    "5/C06"),
  "C07": ("exploration",
    "differential monitor: real static checker vs reference permission model over generated tables and engineered names; service-level carried-out => allowed oracle",
-   "300+ generated permission tables x 400 queries each compare Check() with a literal transcription of the statement (ordered entries, whole-name case-insensitive matching incl. alternation/own anchors, ordered operation lists). A sample of tables is mounted on real stacks and every operation through signer (by name, key, over-long key), lister, wallet manager, account manager (lock/unlock) and account creation (process service and handlers, real wallets) is judged: carried out only if the model allows it for the resolved account; refused requests leave slashing state and lock flags unchanged.",
+   "300+ generated permission tables x 400 queries each compare Check() with a literal transcription of the statement (ordered entries, whole-name case-insensitive matching incl. alternation/own anchors, account names containing the path separator, ordered operation lists). A sample of tables is mounted on real stacks and every operation through signer (by name, key, over-long key), lister, wallet manager, account manager (lock/unlock) and account creation (process service and handlers, real wallets) is judged: carried out only if the model allows it for the resolved account; refused requests leave slashing state and lock flags unchanged.",
    "The model uses Go regexp for matching (anchoring and grouping are its own).",
    "5/C07"),
  "C10": ("exploration",
@@ -58,7 +58,7 @@ CHECKS = {
    "5/C10"),
  "C11": ("exploration",
    "runtime monitor: export vs signed-history maxima; CLI export->import round trip and restart compared by identical probe sequences; legacy gob records vs specification",
-   "Histories of real decisions, then in-process and CLI exports must equal the maxima signed; the export is imported by the CLI into an empty instance; the restarted original and the re-imported instance answer the same shuffled probe grid around every watermark identically and as the sequential specification demands; stores pre-populated with legacy gob records must export and decide like the specification seeded with those values; stores of 75..1000 keys (beyond one iterator batch), opaque non-BLS keys and histories that go through the batch rule with refusable entries are included.",
+   "Histories of real decisions, then in-process and CLI exports must equal the maxima signed; the export is imported by the CLI into an empty instance; the restarted original and the re-imported instance answer the same shuffled probe grid around every watermark identically and as the sequential specification demands; stores pre-populated with legacy gob records must export and decide like the specification seeded with those values; stores of 75..2600 keys (beyond one iterator batch and beyond a thousand records also in the quick tier), opaque non-BLS keys and histories that go through the batch rule with refusable entries are included.",
    "Legacy records are gob encodings of structs with the historical field names.",
    "5/C11"),
  "C15": ("exploration",
@@ -68,7 +68,7 @@ CHECKS = {
    "5/C15"),
  "C12": ("exploration",
    "runtime monitor: DKG consistency oracle over real multi-instance generations (all (n,t), id sets, initiators, commit arrival orders, tampered replies, retry after partial commit)",
-   "Real key generations on in-process clusters of real instances (real wallets, receiver handlers, process services; a routing sender replaces the transport) for every n in 2..7 and every t in 0..n+1; after each success the accounts are read back from every participant's store and checked (composite = returned key, same vector of t entries, threshold, participants, share consistent), every participant signs and lists without restart, all t-subsets recover and (t-1)-subsets do not; out-of-range t must be refused and create nothing; tampered commit replies and a retry after a partially committed attempt must never yield an inconsistent success. A wire variant runs generations on three real daemons (127.0.0.1-3, certificates generated at run time) through AccountManager.Generate.",
+   "Real key generations on in-process clusters of real instances (real wallets, receiver handlers, process services; a routing sender replaces the transport) for every n in 2..7 and every t in 0..n+1; after each success the accounts are read back from every participant's store and checked (composite = returned key, same vector of t entries, threshold, participants, share consistent, and the share as stored opens with the generation's passphrase - every second generation is requested without one - and signs as the account's key), every participant signs and lists without restart, all t-subsets recover and (t-1)-subsets do not; out-of-range t must be refused and create nothing; tampered commit replies and a retry after a partially committed attempt must never yield an inconsistent success. A wire variant runs generations on three real daemons (127.0.0.1-3, certificates generated at run time) through AccountManager.Generate.",
    "herumi polynomial evaluation / recovery used by the oracle; transport replaced in-process.",
    "5/C12"),
  "C13": ("fault_enumeration",
@@ -88,11 +88,11 @@ CHECKS = {
    "5/C16"),
  "C17": ("exploration",
    "runtime monitor: three-valued session model with an interval clock over seeded event sequences on real instances",
-   "Seeded sequences of prepare/execute/commit/abort/fabricated contributions/sleeps over two names on 3-instance clusters with a 1.5 s timeout; only the stated implications are asserted and only where the interval clock decides the session's state (unknown otherwise). An execute-in-flight scenario aborts and re-prepares a name while a contribution is delayed in transit: the new generation must not be committable.",
+   "Seeded sequences of prepare/execute/commit/abort/fabricated contributions/sleeps over two names on 3-instance clusters with a 1.5 s timeout; only the stated implications are asserted and only where the interval clock decides the session's state (unknown otherwise). A sliding-timeout scenario checks that messages during a generation do not extend it. An execute-in-flight scenario aborts and re-prepares a name while a contribution is delayed in transit: the new generation must not be committable.",
    "Expiry is real-time in the code; assertions are skipped in the timing grey zone.",
    "5/C17"),
  "C18": ("exploration",
-   "differential monitor: real lister over a real fetcher vs reference permission model (soundness, completeness, key fidelity), before and after dynamic account creation",
+   "differential monitor: real lister over a real fetcher vs reference permission model (soundness, completeness, key fidelity), before and after dynamic account creation (repeated creations in the same wallets)",
    "150+ generated permission tables x 12 path lists (wallet-only, expressions, unknown, malformed, duplicates) at service and handler boundary on a real fetcher; the same after accounts are created through Dirk (single and 2-of-2 distributed generation).",
    "Completeness uses the narrowest reading of 'matches'.",
    "5/C18"),
